@@ -21,6 +21,7 @@ func init() {
 			"the lunar date, day pillar and the day's term come from the Lunar (validated by C01/C05/C03)",
 		},
 		Gen: c17Gen, Run: c17Run,
+		BlockKind: "year", BlockQuick: [2]int{8, 8}, BlockThorough: [2]int{0, 25},
 		Exhaustive: func(tier string) bool { return tier == "thorough" },
 		MinEvals:   map[string]int64{"quick": 500000, "thorough": 50000000},
 		Chunks:     128,
@@ -62,8 +63,11 @@ func c17Run(w *W, c Case) {
 		cy, cm, cd := ref.FromJDN(j)
 		t := T0[(j+y)%len(T0)]
 		st := ref.Stamp{Y: cy, M: cm, D: cd, H: t[0], Mi: t[1], S: t[2]}
+		if j%7 == 0 {
+			distract(st, j/7)
+		}
 		l := solarOf(st).GetLunar()
-		if w.Quick && !by && j%3 != 0 && l.GetMonth() > 0 {
+		if w.Quick && !by && !w.InBlock && j%3 != 0 && l.GetMonth() > 0 {
 			continue
 		}
 		key := fmtStamp(st)
@@ -114,8 +118,13 @@ func c17Run(w *W, c Case) {
 			fdKey     string
 		}
 		mlen := 0
-		if mn := calendar.NewLunarMonthFromYm(ly, lm); mn != nil {
-			mlen = mn.GetDayCount()
+		if ld >= 28 {
+			// read off the year's month table (validated by C06), not through the by-year-and-month lookup the predicate itself uses
+			for e := calendar.NewLunarYear(ly).GetMonths().Front(); e != nil; e = e.Next() {
+				if mn := e.Value.(*calendar.LunarMonth); mn.GetYear() == ly && mn.GetMonth() == lm {
+					mlen = mn.GetDayCount()
+				}
+			}
 		}
 		six := ld == 8 || ld == 14 || ld == 15 || ld == 23 || ld == 29 || ld == 30 || (ld == 28 && mlen != 30)
 		ten := ld == 1 || ld == 8 || ld == 14 || ld == 15 || ld == 18 || ld == 23 || ld == 24 || ld == 28 || ld == 29 || ld == 30
